@@ -309,7 +309,7 @@ def count_lines(path):
     return n
 
 
-def validate(run, module, trace_files, name, invariants=("Done",), extra_constants="", timeout=1800, parallel=True):
+def validate(run, module, trace_files, name, invariants=("Done",), extra_constants="", timeout=3000, parallel=True):
     """Trace validation: TLC (-workers 1) consumes each trace file with the trace spec.
     Returns (viol list, stat list). Acceptance: every line consumed."""
     procs = []
